@@ -105,6 +105,7 @@ type Proxy struct {
 	burstLeft int
 
 	forced []forced // scripted faults, consumed in order by matching calls
+	sticky []forced // scripted faults that hit every matching call until ClearForced
 
 	calls  []Call
 	faults map[string]int // "op:kind" -> injected count
@@ -142,6 +143,21 @@ func (p *Proxy) Force(op string, level int, kind string, off int64) {
 	p.mu.Lock()
 	defer p.mu.Unlock()
 	p.forced = append(p.forced, forced{op: op, kind: kind, level: level, off: off})
+}
+
+// ForceAll scripts a persistent fault: every call of op on the given level
+// gets kind until ClearForced is called.
+func (p *Proxy) ForceAll(op string, level int, kind string) {
+	p.mu.Lock()
+	defer p.mu.Unlock()
+	p.sticky = append(p.sticky, forced{op: op, kind: kind, level: level})
+}
+
+// ClearForced drops all scripted faults.
+func (p *Proxy) ClearForced() {
+	p.mu.Lock()
+	defer p.mu.Unlock()
+	p.forced, p.sticky = nil, nil
 }
 
 // Rebind points the proxy at another file client (a new litestream.DB object
@@ -214,7 +230,17 @@ func (p *Proxy) pick(op string, level int, min, max ltx.TXID, kinds ...string) (
 	defer p.mu.Unlock()
 	c := Call{Seq: len(p.calls) + 1, Step: p.step, Op: op, Level: level, Min: uint64(min), Max: uint64(max), Kind: KindOK}
 	p.nCalls[op]++
-	if len(p.forced) > 0 && p.forced[0].op == op && p.forced[0].level == level {
+	stuck := false
+	for _, f := range p.sticky {
+		if f.op == op && f.level == level {
+			c.Kind, stuck = f.kind, true
+			p.faults[op+":"+c.Kind]++
+			break
+		}
+	}
+	if stuck {
+		// scripted
+	} else if len(p.forced) > 0 && p.forced[0].op == op && p.forced[0].level == level {
 		c.Kind, c.Off = p.forced[0].kind, p.forced[0].off
 		p.forced = p.forced[1:]
 		p.faults[op+":"+c.Kind]++
